@@ -202,6 +202,11 @@ fn port2_resp(port: u16, ty: u8, proto: u8, hi: u16, lo: u16, nlen: u16, name: &
 /// one real `lookup_node` against the scripted EPMD
 async fn lookup_case(ctx: &mut Ctx, tag: &str, name: &str, reply: Vec<u8>, close: bool) {
     let want = 3 + name.len();
+    // an EPMD that answers and closes never makes the client wait: a timeout then is the loaded machine's (the scripted
+    // server's task ran late), not the script's, and the case is run again (three attempts) before its result is taken
+    let mut attempt = 0;
+    let (res, elapsed, req) = loop {
+    attempt += 1;
     let (port, srv) = scripted_epmd(reply.clone(), close, want).await;
     let client = EpmdClient::with_port("127.0.0.1", port).with_timeout(Duration::from_millis(EPMD_TIMEOUT_MS));
     let n2 = name.to_string();
@@ -215,6 +220,12 @@ async fn lookup_case(ctx: &mut Ctx, tag: &str, name: &str, reply: Vec<u8>, close
     };
     let elapsed = t0.elapsed();
     let req = tokio::time::timeout(Duration::from_millis(3500), srv).await.ok().and_then(|r| r.ok()).unwrap_or_default();
+    if close && res.contains("timeout") && attempt < 3 {
+        ctx.count("epmd_case_retried_after_unscripted_timeout");
+        continue;
+    }
+    break (res, elapsed, req);
+    };
     ctx.count(&format!("epmd_lookup_{}", res.split(' ').take(2).collect::<Vec<_>>().join("_").chars().take(28).collect::<String>()));
     let reqtxt = if res == "panic" { "-".to_string() } else if req.len() > 600 { format!("len{}fnv{}", req.len(), fnv(&req)) } else { hexarg(&req) };
     ctx.tie(tag, &format!("c04epmd_lookup {} {} {}", name_arg(name), hexarg(&reply), if close { "close" } else { "open" }), &format!("req={} {}", reqtxt, res));
@@ -554,6 +565,16 @@ async fn raw_peer(l: TcpListener, status: Ev, chal: Ev, ack: AckEv, cookie: Stri
 }
 
 async fn connect_case(ctx: &mut Ctx, tag: &str, c: ConnCase) {
+    // The connection's per-step timeout is real time (CONN_TIMEOUT_MS). On a loaded machine the scripted peer's task may be
+    // scheduled later than that, and the client then reports a timeout the script never asked for. A timeout is part of the
+    // script only when one of its events is a silence (or EPMD keeps its socket open); any other timeout is the machine's, and
+    // the case is run again (three attempts) before its result is taken: a change that times out where it must not does so
+    // on every attempt.
+    let scripted_silence = matches!(c.status, Ev::Silent) || matches!(c.chal, Ev::Silent) || matches!(c.ack, AckEv::Ev(Ev::Silent))
+        || matches!(&c.epmd_reply, Some((_, false)));
+    let mut attempt = 0;
+    let (reply, close, flags, creation, res, elapsed, state, neg, written, ack_sent) = loop {
+    attempt += 1;
     let l = TcpListener::bind("127.0.0.1:0").await.unwrap();
     let peer_port = l.local_addr().unwrap().port();
     let node = c.remote.split('@').next().unwrap_or("").to_string();
@@ -585,6 +606,13 @@ async fn connect_case(ctx: &mut Ctx, tag: &str, c: ConnCase) {
     let (written, ack_sent) = match peer {
         Some(p) => tokio::time::timeout(Duration::from_millis(4000), p).await.ok().and_then(|r| r.ok()).unwrap_or_default(),
         None => (vec![], None),
+    };
+    let timed_out = matches!(&res, Ok(Err(e)) if conn_eclass(e) == "timeout");
+    if timed_out && !scripted_silence && attempt < 3 {
+        ctx.count("connect_case_retried_after_unscripted_timeout");
+        continue;
+    }
+    break (reply, close, flags, creation, res, elapsed, state, neg, written, ack_sent);
     };
     let restxt = match &res {
         Err(_) => "hang".to_string(),
